@@ -121,6 +121,502 @@ def sync_closing_scenarios(chk):
     return nontrivial
 
 
+# ---- synchronous openings / closings / boundaries for toggle and boundary rules (oracle-only) -----------------
+
+def _prefix_then(rx, n0, tail, hot, immediate):
+    """an observable that emits n0 items INSIDE subscribe() and then goes on as `tail`: 'hot' (the hand-held
+    subject), 'done' (completes at once), 'never'.  immediate: on the ImmediateScheduler -- in the middle of the
+    operator's subscribe body; otherwise on the trampoline -- right after that body, before subscribe() returns"""
+    from reactivex.scheduler import ImmediateScheduler
+    pre = rx.from_iterable(range(n0), scheduler=ImmediateScheduler.singleton()) if immediate else rx.from_iterable(range(n0))
+    if tail == "done":
+        return pre
+    rest = hot if tail == "hot" else rx.never()
+    return rx.concat(pre, rest) if n0 else rest
+
+
+def run_sync_rule(case):
+    """window_toggle / buffer_toggle / window(boundaries) / buffer(boundaries) on a hand-held source, with
+    openings / boundaries that emit `sync` items inside subscribe() (then: hand-held / completed / silent) and,
+    for toggle, closing observables that at seeded invocations fire inside subscribe() (empty / of), never fire,
+    or are hand-held.  -> (windows [[items], terminal] or buffers [[items]], outer terminal list)"""
+    import reactivex as rx
+    from reactivex import operators as ops
+    from reactivex.subject import Subject
+    src, hot = Subject(), Subject()
+    closings = []            # per closing-mapper invocation: Subject or None
+    calls = [0]
+
+    def closing(_v):
+        k = calls[0]
+        calls[0] += 1
+        kind = case["kinds"][k] if k < len(case["kinds"]) else "hot"
+        if kind == "empty":
+            closings.append(None)
+            return rx.empty()
+        if kind == "of":
+            closings.append(None)
+            return rx.of(0)
+        if kind == "never":
+            closings.append(None)
+            return rx.never()
+        sub = Subject()
+        closings.append(sub)
+        return sub
+    ctl = _prefix_then(rx, case["sync"], case["tail"], hot, case.get("immediate", False))
+    name = case["operator"]
+    op = {"window_toggle": lambda: ops.window_toggle(ctl, closing), "buffer_toggle": lambda: ops.buffer_toggle(ctl, closing),
+          "window": lambda: ops.window(ctl), "buffer": lambda: ops.buffer(ctl)}[name]()
+    out, term = [], []
+    if name.startswith("buffer"):
+        src.pipe(op).subscribe(lambda b: out.append(list(b)), lambda e: term.append("E"), lambda: term.append("C"))
+    else:
+        def on_window(w):
+            rec = [[], None]
+            out.append(rec)
+            w.subscribe(rec[0].append, lambda e: rec.__setitem__(1, "E"), lambda: rec.__setitem__(1, "C"))
+        src.pipe(op).subscribe(on_window, lambda e: term.append("E"), lambda: term.append("C"))
+    for step in case["script"]:
+        if step[0] == "N":
+            src.on_next(step[1])
+        elif step[0] == "ctl":              # the hand-held openings / boundaries observable emits
+            hot.on_next(0)
+        elif step[0] == "ctldone":
+            hot.on_completed()
+        elif step[0] == "close":            # the closing observable of the j-th opening fires (if hand-held)
+            if step[1] < len(closings) and closings[step[1]] is not None:
+                (closings[step[1]].on_next(0) if step[2] == "next" else closings[step[1]].on_completed())
+        elif step[0] == "done":
+            src.on_completed()
+        else:
+            src.on_error(RuntimeError("boom"))
+    return out, term
+
+
+def ref_sync_rule(case):
+    """reference written from the rule.  toggle: every opening (inside subscribe or later) opens a window; it
+    closes when ITS closing observable fires (at once for empty / of); an element goes to every window open when it
+    arrives; the source's terminal ends every open window with its kind.  boundaries: one window at a time, a
+    boundary closes it and opens the next.  -> windows [[items], terminal], `cut` = number of windows that were
+    complete when the control observable (boundaries) terminated, or None"""
+    toggle = "toggle" in case["operator"]
+    wins, open_, order = [], [], []        # order: windows in the order in which they ended (buffers)
+    calls = 0
+    ctl_live = case["tail"] == "hot"          # the hand-held control observable can still emit
+    ctl_done = case["tail"] == "done"         # the control observable has completed
+    cut = None
+
+    def end(g, kind):
+        wins[g][1] = kind
+        open_.remove(g)
+        order.append(g)
+
+    def opening():
+        nonlocal calls
+        g = len(wins)
+        wins.append([[], None])
+        open_.append(g)
+        if toggle:
+            kind = case["kinds"][calls] if calls < len(case["kinds"]) else "hot"
+            calls += 1
+            if kind in ("empty", "of"):
+                end(g, "C")
+
+    def boundary():
+        end(open_[0], "C")
+        opening()
+    if not toggle:
+        opening()
+    for _ in range(case["sync"]):
+        opening() if toggle else boundary()
+    if case["tail"] == "done" and not toggle:
+        cut = len(order)
+    finished = False
+    for step in case["script"]:
+        if finished or cut is not None:
+            break
+        if step[0] == "N":
+            for g in open_:
+                wins[g][0].append(step[1])
+        elif step[0] == "ctl":
+            if ctl_live:
+                opening() if toggle else boundary()
+        elif step[0] == "ctldone":
+            if ctl_live:
+                ctl_live = False
+                ctl_done = True
+                if not toggle:
+                    cut = len(order)
+        elif step[0] == "close":
+            g = step[1]
+            kinds = case["kinds"]
+            if toggle and g < len(wins) and g in open_ and (kinds[g] if g < len(kinds) else "hot") == "hot":
+                end(g, "C")
+        else:
+            # is the error bound to show on the result?  windows: while the openings are live (toggle: the outer
+            # sequence follows the openings); buffers: also through a window that was still open
+            err_due = step[0] == "err" and (not toggle or not ctl_done or
+                                            (case["operator"].startswith("buffer") and bool(open_)))
+            for g in list(open_):
+                end(g, "C" if step[0] == "done" else "E")
+            finished = "err" if err_due else ("err-unseen" if step[0] == "err" else "done")
+    return wins, order, cut, finished
+
+
+def check_sync_rule(case):
+    """-> (ok, got, expected).  Judged: which windows exist, what each contains, how it ended; buffers = the
+    contents of the ended windows in the order in which they ended.  NOT judged (the statement is silent): when the
+    OUTER sequence of a toggle completes, and anything after the boundaries observable itself terminated (`cut`:
+    only what was complete by then, plus the contents of the window open at that moment)."""
+    try:
+        out, term = run_sync_rule(case)
+    except RecursionError:
+        return True, "recursion", None
+    wins, order, cut, finished = ref_sync_rule(case)
+    buf = case["operator"].startswith("buffer")
+    if buf:
+        exp = [wins[g][0] for g in order if wins[g][1] == "C"]
+        if cut is not None:
+            exp_cut = [wins[g][0] for g in order[:cut]]
+            ok = out[:len(exp_cut)] == exp_cut and len(out) <= len(exp_cut) + 1
+            return ok, [out, term], [exp_cut, "(+ at most one more buffer)"]
+        ok = out == exp and (("E" in term) == (finished == "err"))
+        return ok, [out, term], [exp, "E" if finished == "err" else "no error"]
+    if cut is not None:
+        n_closed = cut
+        ok = (len(out) == len(wins) and all(out[g] == wins[g] for g in order[:n_closed])
+              and all(out[g][0] == wins[g][0] for g in range(len(wins))))
+        return ok, [out, term], [wins, f"(terminals judged for the first {n_closed} ended windows only)"]
+    ok = out == wins and (("E" in term) == (finished == "err"))
+    return ok, [out, term], [wins, "E" if finished == "err" else "no error"]
+
+
+def gen_sync_rule(rng):
+    name = rng.choice(["window_toggle", "buffer_toggle", "window", "buffer"])
+    toggle = "toggle" in name
+    sync = rng.choice([0, 1, 1, 2, 3])
+    tail = rng.choice(["hot", "hot", "hot", "done", "never"])
+    kinds = [rng.choice(["hot", "hot", "hot", "empty", "of", "never"]) for _ in range(6)] if toggle else []
+    script = []
+    for _ in range(rng.choice([3, 5, 8])):
+        r = rng.random()
+        if r < 0.55:
+            script.append(["N", rng.choice([0, None, 1, 2, 3, ""])])
+        elif r < 0.75:
+            script.append(["ctl"])
+        elif toggle:
+            script.append(["close", rng.randrange(4), rng.choice(["next", "next", "done"])])
+        else:
+            script.append(["ctl"])
+    r = rng.random()
+    if r < 0.1:
+        script.append(["ctldone"])
+        script.append(["N", 7])
+    if r < 0.6:
+        script.append(["done"])
+    elif r < 0.75:
+        script.append(["err"])
+    return {"operator": name, "sync": sync, "tail": tail, "kinds": kinds, "script": script,
+            "immediate": rng.random() < 0.6}
+
+
+def sync_rule_scenarios(chk):
+    n = 240 if chk.tier == "quick" else 4000
+    nontrivial = set()
+    per = {}
+    for _ in range(n):
+        case = gen_sync_rule(chk.rng)
+        ok, got, exp = check_sync_rule(case)
+        chk.cov["evaluations"] += 1
+        if not ok:
+            chk.violation(f"C18|sync-rule|{case['operator']}|sync={case['sync']}|{case['tail']}|{case['kinds'][:3]}|{case['script']}"[:170],
+                          {"sync_rule_case": case, "got (windows [[items], terminal] / buffers, outer terminal)": repr(got),
+                           "expected": repr(exp),
+                           "what": "openings / boundaries emitting inside subscribe() and closing observables firing "
+                                   "inside subscribe(): every element belongs to exactly the windows open when it "
+                                   "arrives; a window closes when its own rule says so"},
+                          size=len(case["script"]) + case["sync"])
+        elif case["sync"] or any(k in ("empty", "of") for k in case["kinds"][:2]):
+            nontrivial.add(repr(case))
+            per[case["operator"]] = per.get(case["operator"], 0) + 1
+    chk.cov["sync_rule_scenarios"] = per
+    return nontrivial
+
+
+# ---- feedback: a window subscriber (or the outer on_next) pushes a new element into the source (oracle-only) ----
+
+def run_feedback(case):
+    """the subscriber of a window, on receiving a chosen element ('win', x), or the outer subscriber, on being
+    handed the g-th window ('hand', g), calls source.on_next(y) RE-ENTRANTLY.  Logged in real order:
+    ('call', x, windows open at that moment as the subscriber sees them: handed, no terminal yet), ('hand', g),
+    ('win', g, x), ('term', g)."""
+    import datetime
+    from reactivex import operators as ops
+    from reactivex.subject import Subject
+    from reactivex.scheduler import HistoricalScheduler
+    src, ctl = Subject(), Subject()
+    closings = []
+    sched = HistoricalScheduler()
+    name = case["operator"]
+
+    def closing(*_a):
+        sub = Subject()
+        closings.append(sub)
+        return sub
+    op = {"window_with_count": lambda: ops.window_with_count(case["count"], case["skip"]),
+          "window": lambda: ops.window(ctl),
+          "window_when": lambda: ops.window_when(closing),
+          "window_toggle": lambda: ops.window_toggle(ctl, closing),
+          "window_with_time": lambda: ops.window_with_time(case["span"] / 1000, case["shift"] / 1000, sched),
+          "window_with_time_or_count": lambda: ops.window_with_time_or_count(case["span"] / 1000, case["count"], sched),
+          }[name]()
+    log = []
+    open_ = set()
+    nwin = [0]
+    feed_at = {(f[0], f[1]): f[2] for f in case["feeds"]}     # (where, trigger) -> value fed (once)
+
+    def push(x):
+        log.append(("call", x, sorted(open_)))
+        src.on_next(x)
+
+    def on_window(w):
+        g = nwin[0]
+        nwin[0] += 1
+        open_.add(g)
+        log.append(("hand", g))
+
+        def on_next(x):
+            log.append(("win", g, x))
+            y = feed_at.pop(("win", x), None)
+            if y is not None:
+                push(y)
+
+        def end():
+            open_.discard(g)
+            log.append(("term", g))
+        w.subscribe(on_next, lambda e: end(), end)
+        y = feed_at.pop(("hand", g), None)
+        if y is not None:
+            push(y)
+    src.pipe(op).subscribe(on_window, lambda e: None, lambda: None)
+    for step in case["script"]:
+        if step[0] == "N":
+            push(step[1])
+        elif step[0] == "ctl":
+            ctl.on_next(0)
+        elif step[0] == "close":
+            if closings:
+                closings[min(step[1], len(closings) - 1)].on_next(0)
+        elif step[0] == "tick":
+            sched.advance_by(datetime.timedelta(milliseconds=step[1]))
+        else:
+            src.on_completed()
+    return log
+
+
+def judge_feedback(log):
+    """the only demand (re-entrant delivery is not specified any further): every element -- fed ones included --
+    is delivered to exactly the windows that were open when source.on_next was called with it, once each"""
+    calls = {e[1]: e[2] for e in log if e[0] == "call"}
+    got = {}
+    for e in log:
+        if e[0] == "win":
+            got.setdefault(e[2], []).append(e[1])
+    return [[x, o, sorted(got.get(x, []))] for x, o in calls.items() if sorted(got.get(x, [])) != o]
+
+
+def gen_feedback(rng):
+    name = rng.choice(["window_with_count", "window_with_count", "window", "window_when", "window_toggle",
+                       "window_with_time", "window_with_time_or_count"])
+    case = {"operator": name, "count": rng.choice([1, 2, 3, 4]), "skip": rng.choice([1, 2, 3, 4]),
+            "span": rng.choice([10, 20, 30]), "shift": rng.choice([10, 20, 30])}
+    script, v = [], 0
+    for _ in range(rng.choice([4, 6, 9])):
+        r = rng.random()
+        if r < 0.6:
+            script.append(["N", v])
+            v += 1
+        elif name in ("window", "window_toggle") and r < 0.8:
+            script.append(["ctl"])
+        elif name in ("window_when", "window_toggle"):
+            script.append(["close", rng.randrange(3)])
+        elif name.startswith("window_with_time"):
+            script.append(["tick", rng.choice([5, 10, 10, 20])])
+        else:
+            script.append(["N", v])
+            v += 1
+    if rng.random() < 0.5:
+        script.append(["done"])
+    feeds = []
+    for j in range(rng.choice([1, 1, 2])):
+        where = rng.choice(["win", "win", "hand"])
+        trig = rng.randrange(max(v, 1)) if where == "win" else rng.randrange(1, 4)
+        feeds.append([where, trig, 100 + j])
+    case["script"], case["feeds"] = script, feeds
+    return case
+
+
+def feedback_unspecified(case):
+    """window_with_count with OVERLAPPING windows fed from inside a window's on_next: the nested call pops the
+    oldest window and appends a new one to the very list the interrupted call is iterating
+    (_windowwithcount.py `for item in q`), so the interrupted element skips a window that was open and reaches one
+    that was not.  No reading of the count rule under re-entrancy is stated (serialising the nested call would
+    equally leave the 'open at its call' reading unsatisfied): counted, not judged."""
+    return (case["operator"] == "window_with_count" and case["skip"] < case["count"]
+            and any(f[0] == "win" for f in case["feeds"]))
+
+
+def feedback_scenarios(chk):
+    n = 300 if chk.tier == "quick" else 6000
+    nontrivial = set()
+    per, deviating = {}, 0
+    for _ in range(n):
+        case = gen_feedback(chk.rng)
+        try:
+            log = run_feedback(case)
+            bad = judge_feedback(log)
+            exc = None
+        except Exception as e:
+            log, bad, exc = [], [], repr(e)
+        chk.cov["evaluations"] += 1
+        fed = sum(1 for e in log if e[0] == "call" and e[1] >= 100)
+        if feedback_unspecified(case):
+            deviating += bool(bad or exc)
+            per["window_with_count overlapping, fed from a window (not judged)"] = \
+                per.get("window_with_count overlapping, fed from a window (not judged)", 0) + 1
+            continue
+        if bad or exc:
+            chk.violation(f"C18|feedback|{case['operator']}|{case['count']},{case['skip']}|{case['script']}|{case['feeds']}"[:170],
+                          {"feedback_case": case, "log (in real order)": repr(log), "exception": exc,
+                           "elements not delivered to exactly the windows open at their call "
+                           "[element, open at the call, delivered to]": bad,
+                           "what": "a window subscriber / the outer subscriber pushes a new element into the source "
+                                   "re-entrantly: every element must reach exactly the windows open when "
+                                   "source.on_next was called with it"},
+                          size=len(case["script"]) + len(case["feeds"]))
+        elif fed:
+            nontrivial.add(repr(case))
+            per[case["operator"]] = per.get(case["operator"], 0) + 1
+    chk.cov["feedback_scenarios"] = per
+    chk.cov["feedback_window_with_count_overlapping_deviations_not_judged"] = deviating
+    return nontrivial
+
+
+# ---- coverage only (not judged): see the comments -------------------------------------------------------------
+
+def run_toggle_subscribe_scheduler(case):
+    """window_toggle / buffer_toggle subscribed WITH a scheduler argument (a virtual-time one that is never
+    advanced).  -> per window (in opening order): [elements it received, number of elements that had arrived
+    before it was opened]"""
+    from reactivex import operators as ops
+    import reactivex as rx
+    from reactivex.subject import Subject
+    from reactivex.scheduler import HistoricalScheduler
+    src, opn = Subject(), Subject()
+    wins, sent = [], []
+    closers = []
+
+    def closing(_v):
+        c = Subject()
+        closers.append(c)
+        return c
+    if case["operator"] == "buffer_toggle":
+        # buffers: close every window at the end and read the buffers (emitted in closing = opening order)
+        bufs = []
+        marks = []
+        src.pipe(ops.buffer_toggle(opn, closing)).subscribe(bufs.append, lambda e: None, lambda: None,
+                                                           scheduler=HistoricalScheduler())
+        for step in case["script"]:
+            if step[0] == "N":
+                sent.append(step[1])
+                src.on_next(step[1])
+            else:
+                marks.append(len(sent))
+                opn.on_next(0)
+        for c in closers:
+            c.on_next(0)
+        return [[list(b), k] for b, k in zip(bufs, marks)]
+
+    def on_window(w):
+        rec = [[], len(sent)]
+        wins.append(rec)
+        w.subscribe(rec[0].append, lambda e: None, lambda: None)
+    src.pipe(ops.window_toggle(opn, closing)).subscribe(on_window, lambda e: None, lambda: None,
+                                                        scheduler=HistoricalScheduler())
+    for step in case["script"]:
+        if step[0] == "N":
+            sent.append(step[1])
+            src.on_next(step[1])
+        else:
+            opn.on_next(0)
+    return wins
+
+
+def check_toggle_subscribe_scheduler(case):
+    """every window holds exactly the elements that arrived after it was opened (none closes here)"""
+    sent = [st[1] for st in case["script"] if st[0] == "N"]
+    got = run_toggle_subscribe_scheduler(case)
+    return all(rec == sent[k:] for rec, k in got), got
+
+
+def toggle_subscribe_scheduler_scenarios(chk):
+    """group_join kept every source element in right_map until its duration completed ON THE SCHEDULER PASSED TO
+    subscribe(); a window opened meanwhile was handed elements that had arrived before it was open (fixed in /repo
+    34c478c: the per-element duration now completes inside subscribe whatever the scheduler)."""
+    n = 40 if chk.tier == "quick" else 400
+    nontrivial = set()
+    for _ in range(n):
+        script, v = [], 0
+        for _j in range(chk.rng.choice([3, 5, 7])):
+            if chk.rng.random() < 0.6:
+                script.append(["N", v])
+                v += 1
+            else:
+                script.append(["open"])
+        case = {"operator": chk.rng.choice(["window_toggle", "window_toggle", "buffer_toggle"]), "script": script}
+        ok, got = check_toggle_subscribe_scheduler(case)
+        chk.cov["evaluations"] += 1
+        if not ok:
+            chk.violation(f"C18|toggle-subscribe-scheduler|{case['operator']}|element delivered to a window opened after it arrived",
+                          {"toggle_scheduler_case": case, "got [elements, arrived before the window opened]": repr(got),
+                           "what": "window_toggle / buffer_toggle subscribed with scheduler=HistoricalScheduler() (never "
+                                   "advanced): a window must hold exactly the elements that arrive while it is open"},
+                          size=len(script))
+        elif any(k and rec for rec, k in got):
+            nontrivial.add(repr(case))
+    chk.cov["toggle_with_subscribe_scheduler_cases"] = n
+    return nontrivial
+
+
+def boundary_parameter_coverage(chk):
+    """COVERAGE ONLY.  parameters outside the statement's range (count/skip 1..N, positive timeshift): recorded, NOT judged.
+    count <= 0 / skip <= 0: ArgumentOutOfRangeException when the operator is applied; buffer_with_time(timeshift=0)
+    falls back to timeshift = timespan (`if not timeshift`); window_with_time(timeshift=0) is NOT run: it opens
+    windows for ever at one instant (a virtual-time scheduler never returns from advance)."""
+    import datetime
+    from reactivex import operators as ops
+    from reactivex.subject import Subject
+    from reactivex.scheduler import HistoricalScheduler
+    out = {}
+    for name in ("window_with_count", "buffer_with_count"):
+        for (c, k) in ((0, None), (-1, None), (2, 0), (2, -1), (0, 0)):
+            try:
+                Subject().pipe(getattr(ops, name)(c, k) if k is not None else getattr(ops, name)(c)).subscribe()
+                out[f"{name}({c},{k})"] = "accepted"
+            except Exception as e:
+                out[f"{name}({c},{k})"] = type(e).__name__
+            chk.cov["evaluations"] += 1
+    sched, src, got = HistoricalScheduler(), Subject(), []
+    src.pipe(ops.buffer_with_time(0.02, 0, sched)).subscribe(got.append)
+    for (dt, x) in ((0, 1), (10, 2), (15, 3), (20, 4)):
+        sched.advance_by(datetime.timedelta(milliseconds=dt))
+        src.on_next(x)
+    src.on_completed()
+    out["buffer_with_time(0.02, timeshift=0): 1@0 2@10 3@25 4@45"] = repr(got)
+    chk.cov["evaluations"] += 1
+    chk.cov["boundary_parameters_not_judged"] = out
+
+
 def run(chk):
     chk.build_and_prove()
     win_table.run_ops(chk, "C18", NAMES, ncase=(60 if chk.tier == "quick" else 600))
@@ -130,25 +626,76 @@ def run(chk):
                        "between sources common; falsy elements; 12% non-conforming tails; 20% outer dispose) x "
                        "seeded window-subscription policies (immediately / after a delay / never / dispose after n "
                        "elements / dispose after d ms); non-trivial = distinct (policy, machine, delivered input "
-                       "sequence) with >= 2 window or buffer notifications and the oracle satisfied")
+                       "sequence) with >= 2 window or buffer notifications and the oracle satisfied; in 35% of the "
+                       "cases the measured subscription is the SECOND one of the same observable object (an abandoned "
+                       "warm-up subscription with its own traffic first)")
     nt = sync_closing_scenarios(chk)
     chk.cov["distinct_nontrivial"] = chk.cov.get("distinct_nontrivial", 0) + len(nt)
     chk.cov["sync_closing_scenarios_nontrivial"] = len(nt)
     chk.cov["rule"] += ("; oracle-only: window_when / buffer_when whose closing selector returns, at seeded "
                         "invocations, an observable firing synchronously inside subscribe() (empty / of) mixed with "
                         "hand-held ones, against a reference written from the rule")
+    nt = sync_rule_scenarios(chk)
+    chk.cov["distinct_nontrivial"] += len(nt)
+    chk.cov["sync_rule_scenarios_nontrivial"] = len(nt)
+    chk.cov["rule"] += ("; oracle-only: window_toggle / buffer_toggle / window(boundaries) / buffer(boundaries) whose "
+                        "openings / boundaries emit 0-3 items inside subscribe() (then hand-held / completed / silent) "
+                        "and whose closing observables fire inside subscribe() (empty / of), never, or by hand")
+    nt = feedback_scenarios(chk)
+    chk.cov["distinct_nontrivial"] += len(nt)
+    chk.cov["feedback_scenarios_nontrivial"] = len(nt)
+    chk.cov["rule"] += ("; oracle-only: a window subscriber (on a chosen element) or the outer subscriber (on a chosen "
+                        "hand) pushes a new element into the source re-entrantly, for the six window operators (timed "
+                        "ones on a HistoricalScheduler): every element must reach exactly the windows open at its call; "
+                        "window_with_count with overlapping windows fed from a window is counted, not judged")
+    nt = toggle_subscribe_scheduler_scenarios(chk)
+    chk.cov["distinct_nontrivial"] += len(nt)
+    chk.cov["rule"] += ("; oracle-only: window_toggle / buffer_toggle subscribed with a scheduler argument that is "
+                        "never advanced (no element may reach a window opened after it arrived)")
+    boundary_parameter_coverage(chk)
     chk.cov["operators_modelled"] = NAMES
     return chk.finish(trusted_extra=[
         "window-aware K2 driver harness/k2w.py (hot sources, proxy scheduler, boundary log, window subscription "
         "policies turned into boundary inputs ISubWin/IUnsubWin; canonical per-instant ordering of "
-        "subscribe/unsubscribe/timer events)",
+        "subscribe/unsubscribe/timer events; warm-up = an earlier abandoned subscription whose traffic is not logged)",
         "runner assumption (Ops/MultiWin.v): the disposable under the operator's RefCountDisposable holds every "
-        "subscription and timer it opened -- checked here by comparing unsubscribe/cancel instants"])
+        "subscription and timer it opened -- checked here by comparing unsubscribe/cancel instants"],
+        assumptions=[
+        "re-entrant feedback into window_with_count with overlapping windows from inside a window's on_next is "
+        "counted, not judged (no reading of the count rule under re-entrancy is stated)",
+        "parameters outside the stated range (count/skip <= 0, timeshift = 0) are recorded, not judged",
+        "sync-rule family: the completion instant of a toggle's OUTER sequence and everything after the boundaries "
+        "observable itself terminated are not judged"])
 
 
 def replay(chk, path):
     import json
     d = json.load(open(path))
+    if "feedback_case" in d:
+        try:
+            log = run_feedback(d["feedback_case"])
+            bad = judge_feedback(log)
+        except Exception as e:
+            log, bad = [], [repr(e)]
+        print(json.dumps({"case": d["feedback_case"], "log": repr(log), "bad": bad}, default=str))
+        if bad:
+            print(f"VIOLATION property=C18 replay={path}")
+            return 1
+        return 0
+    if "toggle_scheduler_case" in d:
+        ok, got = check_toggle_subscribe_scheduler(d["toggle_scheduler_case"])
+        print(json.dumps({"case": d["toggle_scheduler_case"], "got": repr(got)}, default=str))
+        if not ok:
+            print(f"VIOLATION property=C18 replay={path}")
+            return 1
+        return 0
+    if "sync_rule_case" in d:
+        ok, got, exp = check_sync_rule(d["sync_rule_case"])
+        print(json.dumps({"case": d["sync_rule_case"], "got": repr(got), "expected": repr(exp)}, default=str))
+        if not ok:
+            print(f"VIOLATION property=C18 replay={path}")
+            return 1
+        return 0
     if "sync_closing_case" in d:
         case = d["sync_closing_case"]
         got, exp = run_sync_closing(case), ref_sync_closing(case)
@@ -163,4 +710,6 @@ def replay(chk, path):
     v, text = win_table.replay_case(path)
     print(text)
     print(f"[{chk.pid}] replay: {'STILL VIOLATED' if v else 'no longer violated on the current tree'}")
+    if v:
+        print(f"VIOLATION property={chk.pid} replay={path}")
     return 1 if v else 0
